@@ -18,6 +18,9 @@ message; spawned handlers interleave arbitrarily; each handler = the list of its
 * `C27_spawned_open_loses_edit` — the pinned tree's dispatch (`didOpen`/`didClose` spawned, `didChange`
   inline): `open(t1); change(t2)` ends analysed with `t1` under a concrete schedule (by `decide`).
 
+* `C27_version_independent` — T-src: the handlers and `sync_open_file`/`close_open_file` do not look at LSP
+  version numbers (the model has none); the sessions send editor-style, low, equal and malformed versions.
+
 Partial: tokio's real scheduler is not exhibited; a handler section is atomic because it runs under one
 write lock; only workspace files (`should_process = true`) are modelled.
 -/
@@ -81,6 +84,12 @@ theorem C27_dispatch_known :
       n ∈ [Kind.didOpen, .didChange, .didClose, .didSave, .didChangeWatchedFiles, .setTrace,
            .didChangeConfiguration, .didRenameFiles].map Kind.name) ∧
     (Gen.syncNotifications ++ Gen.asyncNotifications).Nodup := by decide
+
+/-- the model's handlers have no version-dependent behaviour, and neither has the source: the three document
+handlers never read an LSP `version`, and `sync_open_file` / `close_open_file` are unconditional, version-free
+updates (the property quantifies over notification sequences, whatever version numbers they carry) -/
+theorem C27_version_independent :
+    Gen.docHandlersReadVersion = false ∧ Gen.syncOpenFileConditional = false := by decide
 
 /-- **C27 for the server's dispatch.** -/
 theorem C27_server_last_writer_wins (disk : TMap) (ms : List Notif) (st0 : Store) (sched : List Label)
